@@ -333,7 +333,7 @@ def specDiscard (s : Spec) (off : Int) : Spec :=
 /-- Representation invariant of the chunk chain. -/
 def Inv (c : Nat) (p : Pipe) : Prop :=
   p.start ≤ p.stop ∧ ∃ o, Cont c o p.bufs ∧ (p.bufs = [] → p.start = p.stop) ∧
-    (p.bufs ≠ [] → o ≤ p.start ∧ p.start ≤ o + c ∧ p.stop ≤ cend o c p.bufs)
+    (p.bufs ≠ [] → o ≤ p.start ∧ p.start < o + c ∧ p.stop ≤ cend o c p.bufs)
 
 /-- Offset of the head chunk (the window start when no chunk is allocated). -/
 def headOff (p : Pipe) : Int :=
@@ -399,7 +399,7 @@ theorem writeAt_refines (c : Nat) (hc : 0 < c) (p : Pipe) (s : Spec) (b : List N
       · rfl
     -- the chain the loop starts from
     generalize hbufs0 : (if p.bufs.isEmpty then [newBuf c p.start] else p.bufs) = bufs0
-    have h0 : ∃ o0, Cont c o0 bufs0 ∧ bufs0 ≠ [] ∧ o0 ≤ p.start ∧ p.start ≤ o0 + c ∧ p.stop ≤ cend o0 c bufs0 ∧
+    have h0 : ∃ o0, Cont c o0 bufs0 ∧ bufs0 ≠ [] ∧ o0 ≤ p.start ∧ p.start < o0 + c ∧ p.stop ≤ cend o0 c bufs0 ∧
         (∀ x v, byteAt p.bufs x = some v → byteAt bufs0 x = some v) ∧ headOff p = o0 := by
       subst hbufs0
       cases hp : p.bufs with
@@ -461,18 +461,18 @@ theorem writeAt_refines (c : Nat) (hc : 0 < c) (p : Pipe) (s : Spec) (b : List N
         split <;> omega
 
 theorem dropBufs_pop (po : Int) (pbb : List Nat) (rest : List Buf) (off : Int)
-    (h : po + (pbb.length : Int) < off) : dropBufs (⟨po, pbb⟩ :: rest) off = dropBufs rest off := by
+    (h : po + (pbb.length : Int) ≤ off) : dropBufs (⟨po, pbb⟩ :: rest) off = dropBufs rest off := by
   simp [dropBufs, Buf.stop, h]
 
 theorem dropBufs_keep (po : Int) (pbb : List Nat) (rest : List Buf) (off : Int)
-    (h : ¬ (po + (pbb.length : Int) < off)) : dropBufs (⟨po, pbb⟩ :: rest) off = ⟨po, pbb⟩ :: rest := by
+    (h : ¬ (po + (pbb.length : Int) ≤ off)) : dropBufs (⟨po, pbb⟩ :: rest) off = ⟨po, pbb⟩ :: rest := by
   simp [dropBufs, Buf.stop, h]
 
 theorem dropBufs_spec (c : Nat) (off : Int) : ∀ (bufs : List Buf) (o : Int), Cont c o bufs → o ≤ off →
     ∃ o', Cont c o' (dropBufs bufs off) ∧ o' ≤ off ∧
       cend o' c (dropBufs bufs off) = cend o c bufs ∧
-      (dropBufs bufs off ≠ [] → off ≤ o' + c) ∧
-      (dropBufs bufs off = [] → bufs = [] ∨ cend o c bufs < off) ∧
+      (dropBufs bufs off ≠ [] → off < o' + c) ∧
+      (dropBufs bufs off = [] → bufs = [] ∨ cend o c bufs ≤ off) ∧
       (∀ x, o' ≤ x → byteAt (dropBufs bufs off) x = byteAt bufs x) ∧ o ≤ o' := by
   intro bufs
   induction bufs with
@@ -483,7 +483,7 @@ theorem dropBufs_spec (c : Nat) (off : Int) : ∀ (bufs : List Buf) (o : Int), C
     obtain ⟨h1, h2, h3⟩ := hcont
     simp only at h1 h2
     subst h1
-    by_cases hp : po + (pbb.length : Int) < off
+    by_cases hp : po + (pbb.length : Int) ≤ off
     · rw [dropBufs_pop _ _ _ _ hp]
       obtain ⟨o', i1, i2, i3, i4, i5, i6, i7⟩ := ih (po + c) h3 (by omega)
       refine ⟨o', i1, i2, by rw [i3, cend_cons], i4, ?_, ?_, by omega⟩
@@ -904,7 +904,7 @@ theorem read_before_start_panics (p : Pipe) (off n : Int) (h : off < p.start) : 
   unfold Model.Pipe.read; rw [if_pos h]
 
 /-- **peek**: never panics for `n ≥ 0`, returns at most `n` bytes, and they are the bytes held at the
-window start onwards (a possibly short — even empty — prefix: it stops at the end of the head chunk). -/
+window start onwards (a possibly short prefix: it stops at the end of the head chunk; never empty for a non-empty window, see `peek_progress`). -/
 theorem peek_prefix (c : Nat) (p : Pipe) (n : Int) (hinv : Inv c p) (hn : 0 ≤ n) :
     ∃ bs, peek p n = some bs ∧ (bs.length : Int) ≤ n ∧
       ∀ i : Nat, i < bs.length → bs[i]? = byteAt p.bufs (p.start + i) := by
@@ -930,6 +930,31 @@ theorem peek_prefix (c : Nat) (p : Pipe) (n : Int) (hinv : Inv c p) (hn : 0 ≤ 
       rw [byteAt_in _ _ _ _ hin, List.getElem?_take, if_pos (by simp only [List.length_drop]; omega),
         List.getElem?_drop]
       congr 1; omega
+
+/-- **peek makes progress**: with a non-empty window and `n > 0` it returns at least one byte (the head
+chunk always reaches beyond the window start since `discardBefore` releases a chunk that ends exactly
+at the new start). Full statement of the formerly reported gap. -/
+theorem peek_progress (c : Nat) (p : Pipe) (n : Int) (hinv : Inv c p) (hn : 0 < n) (hw : p.start < p.stop) :
+    ∃ bs, peek p n = some bs ∧ 0 < bs.length := by
+  obtain ⟨bs, e, _, _⟩ := peek_prefix c p n hinv (by omega)
+  refine ⟨bs, e, ?_⟩
+  obtain ⟨hle, o, hcont, hnil, hne⟩ := hinv
+  unfold peek at e
+  cases hb : p.bufs with
+  | nil => have := hnil hb; omega
+  | cons h t =>
+    rw [hb] at hcont hne e
+    obtain ⟨a1, a2, a3⟩ := hne (by simp)
+    obtain ⟨po, pbb⟩ := h
+    obtain ⟨c1, c2, c3⟩ := hcont
+    simp only at c1 c2 e
+    subst c1
+    have hk : ¬ (p.start - po < 0 ∨ p.start - po > (pbb.length : Int)) := by omega
+    have hn' : ¬ (n < 0) := by omega
+    rw [if_neg hk, if_neg hn'] at e
+    have := Option.some.inj e
+    subst this
+    simp only [List.length_take, List.length_drop]; omega
 
 /-! ### all histories -/
 
@@ -1030,7 +1055,9 @@ example : Valid [.write [1,2,3] 5, .discard 6, .write [9] 2, .write [7,7] 7] Spe
 example : read (writeAt 4 empty [1,2] 0).1 0 4 = some [[1,2,0,0]] := by decide
 -- … and panics beyond it
 example : read (writeAt 4 empty [1,2] 0).1 0 5 = none := by decide
--- peek can return nothing although the window is not empty (head chunk exhausted exactly)
-example : peek (discardBefore (writeAt 4 empty [1,2,3,4,5] 0).1 4) 1 = some [] := by decide
+-- the old witness of "peek returns nothing although the window is not empty" (head chunk exhausted
+-- exactly at a chunk boundary) now satisfies `peek_progress`: the dead chunk is released
+example : peek (discardBefore (writeAt 4 empty [1,2,3,4,5] 0).1 4) 1 = some [5] := by decide
+example : (discardBefore (writeAt 4 empty [1,2,3,4,5] 0).1 4).bufs = [⟨4, [5,0,0,0]⟩] := by decide
 
 end NetVerif.Proofs.C30
